@@ -45,6 +45,14 @@ type Op struct {
 	More    []string    `json:"more,omitempty"`   // further lines of the same Write call
 	Empty   bool        `json:"empty,omitempty"`  // Write(nil): nothing to write
 	Chunks  bool        `json:"chunks,omitempty"` // the line reaches the container in two Write calls: its text, then its line feed
+	When    *When       `json:"when,omitempty"`   // the call is issued only once a bar has been drawn so many times in a terminal state
+}
+
+// When ties a call to the frames: "after bar B's TF-th frame in a terminal state has been drawn" (the container serves the
+// call between that frame and the next one it is asked for, which is how a program aims at a particular frame window).
+type When struct {
+	B  string `json:"b"`
+	TF int    `json:"tf"`
 }
 
 type Cfg struct {
